@@ -84,14 +84,29 @@ class Faulty(Play):
                     self.later.append({"step": i, "cbid": t[1], "occ": t[2]})
 
 
-KINDS = ["boom", "tna", "value", "key", "boom", "attr"]
+KINDS = ["boom", "tna", "value", "key", "boom", "attr", "stop"]
+GUARD_KINDS = ["boom", "stop", "value"]
 
 
 def inject(case, points):
     c = dict(case)
     # the kind of exception rotates with the crash point: the harness' own exception, the library's TransitionNotAllowed
-    # raised by user code, a builtin exception
-    c["faults"] = {str(p["step"]): [p["cbid"], p["occ"], "guard" if p.get("guard") else KINDS[(p["occ"] + p.get("pos", 0) + len(p["cbid"])) % len(KINDS)]] for p in points}
+    # raised by user code, builtin exceptions (StopIteration only from plain functions: inside a coroutine Python itself turns
+    # it into a RuntimeError)
+    # (on the async engine plain callbacks run inside the library's coroutine wrapper too: StopIteration only for machines without
+    # any coroutine callback)
+    any_async = gen.is_async_spec(case["spec"])
+    is_async = {f"{d['name']}@{d['prov']}": any_async for d in case["spec"]["cbs"] + case["spec"].get("guards", [])}
+    faults = {}
+    for p in points:
+        n = p["occ"] + p.get("pos", 0) + len(p["cbid"])
+        if p.get("guard"):
+            k = GUARD_KINDS[n % len(GUARD_KINDS)]
+            faults[str(p["step"])] = [p["cbid"], p["occ"], "guard", "boom" if (k == "stop" and is_async.get(p["cbid"])) else k]
+        else:
+            k = KINDS[n % len(KINDS)]
+            faults[str(p["step"])] = [p["cbid"], p["occ"], "value" if (k == "stop" and is_async.get(p["cbid"], True)) else k]
+    c["faults"] = faults
     return c
 
 
